@@ -189,6 +189,41 @@ pub fn matrix_hole<Ty: EdgeType, W: Clone>(a: &Abs<W>) -> Option<Enc<Mx<W, Ty>>>
     Some(Enc { name: "MatrixGraph(removed id below live ids)", g, ids, sparse: true })
 }
 
+/// two adjacent removed ids below live ids and one removed id in the middle
+pub fn matrix_holes2<Ty: EdgeType, W: Clone>(a: &Abs<W>) -> Option<Enc<Mx<W, Ty>>> {
+    if !a.simple() {
+        return None;
+    }
+    let mut g = Mx::<W, Ty>::with_capacity(0);
+    let d0 = g.add_node(DECOY);
+    let d1 = g.add_node(DECOY);
+    let mut ids = vec![];
+    let mut dm = None;
+    for i in 0..a.n {
+        if i == (a.n + 1) / 2 {
+            dm = Some(g.add_node(DECOY));
+        }
+        ids.push(g.add_node(i as u32));
+    }
+    if a.n > 0 {
+        if let Some(e) = a.edges.first() {
+            g.add_edge(d1, ids[0], e.2.clone());
+            g.add_edge(ids[a.n - 1], d0, e.2.clone());
+        }
+    }
+    for (x, y, w) in &a.edges {
+        g.add_edge(ids[*x], ids[*y], w.clone());
+    }
+    g.remove_node(d1);
+    g.remove_node(d0);
+    if let Some(dm) = dm {
+        if a.n >= 2 {
+            g.remove_node(dm);
+        }
+    }
+    Some(Enc { name: "MatrixGraph(two adjacent removed ids below live ids, one in the middle)", g, ids, sparse: true })
+}
+
 /// keys 3*p(i)+1 where p = identity (variant 0), reversal (variant 1) or a rotation (variant 2)
 pub fn graphmap<Ty: EdgeType, W: Clone>(a: &Abs<W>, variant: usize) -> Option<Enc<GraphMap<u32, W, Ty>>> {
     if !a.simple() {
